@@ -157,3 +157,16 @@ def make_scripted_solver(kind, options, script, cs=False, linesearch=None, use_r
         Scripted.linesearch = property(lambda self: self._linesearch)
     s._keepalive = p
     return s, state
+
+
+def light_vector(data, complex_step=False):
+    """A real DefaultVector object over `data` WITHOUT a model behind it: only the flat-array methods
+    (asarray, _get_data, get_slice, set_val, iadd, ...) are usable.  Cheap enough for sampling tiers."""
+    import numpy as np
+    from openmdao.vectors.default_vector import DefaultVector
+    v = DefaultVector.__new__(DefaultVector)
+    v._data = np.array(data, dtype=complex if complex_step else float)
+    v._under_complex_step = complex_step
+    v._alloc_complex = complex_step
+    v._names = frozenset(['x'])
+    return v
